@@ -567,15 +567,16 @@ func init() {
 			return string(r)
 		},
 		"(*sync.Once).Do": func(caller *frame, fn *ssa.Function, args []value) value {
+			// the done flag lives in the Once itself (sync.Once{done atomic.Uint32{_, v uint32}; m}):
+			// a side table keyed by the address would keep every per-path object that
+			// embeds a Once alive for the whole run
 			i := caller.i
 			p := args[0].(*value)
-			done, _ := i.natState["once"].(map[*value]bool)
-			if done == nil {
-				done = map[*value]bool{}
-				i.natState["once"] = done
-			}
-			if !done[p] {
-				done[p] = true
+			once := (*p).(structure)
+			au := once[0].(structure)
+			k := len(au) - 1
+			if d, _ := au[k].(uint32); d == 0 {
+				au[k] = uint32(1)
 				call(i, caller, 0, args[1], nil)
 			}
 			return nil
